@@ -68,6 +68,7 @@ def bits_of_bytes(b, nbits=None):
     return s if nbits is None else s[:nbits]
 
 def hx(b): return bytes(b).hex() if b else "-"
+def unhx(s): return b"" if s == "-" else bytes.fromhex(s)
 def bs(s): return s if s else "-"
 
 # ------------------------------------------------------------------ generators
@@ -126,6 +127,24 @@ def gen_bits_scripts(ctx):
             elif k < 0.8: toks.append(f"gm{rng.randrange(0, 80)}")
             else: toks.append(f"gr{rng.randrange(0, 80)}")
         L.append(f"bits {bs(rbits(rng, total))} " + " ".join(toks))
+    # byte-level position (buffer, nboff, nbits): every start offset 0..23 x every width, tight buffers
+    for size in (0, 1, 2, 3, 4, 5, 6, 9):
+        for nboff in range(0, min(8 * size, 23) + 1):
+            for unused in (0, 1, 7):
+                nbits = 8 * size - unused
+                if nbits < nboff: continue
+                data = bytes(rng.getrandbits(8) for _ in range(size))
+                left = nbits - nboff
+                ws = {0, 1, 7, 8, 9, 15, 16, 17, 23, 24, 25, 30, 31, 32, left, left + 1, max(left - 1, 0)}
+                for w in sorted(ws):
+                    if ctx.quick and (size + nboff + w + unused) % 3 and w not in (left, left + 1, 24, 25, 31): continue
+                    if w <= 64: L.append(f"rawget {hx(data)} {nboff} {nbits} {w} {rng.randrange(0, 9)} {rng.randrange(0, 32)}")
+    for _ in range(300 if ctx.quick else 20000):
+        size = rng.randrange(0, 24)
+        nbits = max(0, 8 * size - rng.randrange(0, 8))
+        nboff = rng.randrange(0, nbits + 1)
+        data = bytes(rng.getrandbits(8) for _ in range(size))
+        L.append(f"rawget {hx(data)} {nboff} {nbits} " + " ".join(str(rng.randrange(0, 34)) for _ in range(rng.randrange(1, 7))))
     # many-bits put/get at every length 0..80 and offsets
     for nb in range(0, 81):
         for off in (0, 3, 7):
@@ -138,8 +157,11 @@ def gen_bits_scripts(ctx):
             L.append(f"bits - {pre}pm{hx(data)}:{nb} p2:3 x {gpre}gr{nb} g2")
     return L
 
-def gen_lines(ctx):
+def gen_lines(ctx, expect=None):
+    """op lines; `expect` (dict line -> exact expected C output) collects the reader-conformance cases
+    (standard encodings produced by the oracle that the readers must accept)"""
     rng = ctx.rng
+    if expect is None: expect = {}
     L = gen_bits_scripts(ctx)
     # ---- uper_put_length
     ns = set(LEN_EDGES) | pow2_neighbours(40) | {16384 * m + d for m in range(1, 9) for d in (-1, 0, 1)}
@@ -176,6 +198,11 @@ def gen_lines(ctx):
         for tail in ("", rbits(rng, 7), rbits(rng, 8), rbits(rng, 15), rbits(rng, 16), rbits(rng, 20)):
             L.append(f"nsnnwn_get {pre + tail}")
     for cut in range(0, 9): L.append(f"nsnnwn_get {bs('101010101'[:cut])}")
+    for n in sorted(nv):             # the standard encoding (X.691 10.6) must be accepted by the reader
+        if 0 <= n < 65536:
+            e = o_normally_small(n)
+            l = f"nsnnwn_get {e + rbits(rng, rng.choice([0, 1, 9]))}"
+            L.append(l); expect[l] = f"{n} {len(e)}"
     # ---- nslength
     lv = set(range(0, 140)) | set(LEN_EDGES)
     for n in sorted(lv): L.append(f"nslength_put {n}")
@@ -184,6 +211,11 @@ def gen_lines(ctx):
         for tail in ("", rbits(rng, 6), rbits(rng, 8), rbits(rng, 12)):
             L.append(f"nslength_get {pre + tail}")
     for cut in range(0, 9): L.append(f"nslength_get {bs('110101011'[:cut])}")
+    for n in sorted(lv):             # the standard encoding (X.691 10.9.3.4) must be accepted by the reader
+        if 1 <= n < 16384:
+            e = o_normally_small_length(n)
+            l = f"nslength_get {e + rbits(rng, rng.choice([0, 1, 9]))}"
+            L.append(l); expect[l] = f"{n} {len(e)}"
     # ---- constrained whole number
     for rb in range(-1, 71):
         vals = {0, 1, U64, (1 << 31) - 1, 1 << 31, (1 << 32) - 1, 1 << 32, (1 << 62) + 12345, rng.getrandbits(64)}
@@ -248,7 +280,7 @@ def gen_lines(ctx):
 
 # ------------------------------------------------------------------ P leg
 
-def p_leg(ctx, drv, lines, couts):
+def p_leg(ctx, drv, lines, couts, expect):
     """returns list of (line, c_output, why, region) with region in {None, 'F29', 'nslength'}"""
     fails = []
     second, second_chk = [], []
@@ -290,6 +322,8 @@ def p_leg(ctx, drv, lines, couts):
         elif op in ("nsnnwn_get", "nslength_get", "cwn_get"):
             n_cases += 1
             src = t[-1]
+            if l in expect and c != expect[l]:
+                fails.append((l, c, f"the reader must accept the standard encoding: expected {expect[l]}", None))
             if c != "-1" and int(c.split()[1]) > (0 if src == "-" else len(src)):
                 fails.append((l, c, "consumed more bits than available", None))
         elif op == "nslength_put":
@@ -351,6 +385,23 @@ def p_leg(ctx, drv, lines, couts):
             if c.startswith("ok "):
                 size = 0 if t[1] == "-" else 4 * len(t[1])
                 if int(c.split()[2]) > size - int(t[2]): fails.append((l[:80], c[:80], "consumed more bits than available", None))
+        elif op == "rawget":
+            # C04: every read stays inside [nboff, nbits): position after k reads = nboff + sum of widths <= nbits
+            n_cases += 1
+            if c not in ("precond",):
+                nboff, nbits = int(t[2]), int(t[3])
+                pos = nboff
+                for w, r in zip(t[4:], c.split(",")):
+                    if r == "-1":
+                        if int(w) <= 31 and pos + int(w) <= nbits: fails.append((l, c, "read refused although enough bits are left", None))
+                        break
+                    pos += int(w)
+                    if pos > nbits or int(w) > 31: fails.append((l, c, "read beyond nbits accepted", None)); break
+                    v, st = r.split("@"); bo, no, nb = (int(x) for x in st.split(":"))
+                    raw = int.from_bytes(unhx(t[1]), "big") if t[1] != "-" else 0
+                    tot = 8 * (0 if t[1] == "-" else len(t[1]) // 2)
+                    exp_v = (raw >> (tot - pos)) & ((1 << int(w)) - 1)
+                    if int(v) != exp_v or 8 * bo + no != pos: fails.append((l, c, f"expected value {exp_v} at bit position {pos}", None)); break
         elif op == "bits":
             n_cases += 1
     if second:
@@ -369,7 +420,8 @@ def p_leg(ctx, drv, lines, couts):
 def run(ctx):
     lib = build.build_skel("asan")
     drv = build.build_prog("per_driver", ["per_driver.c", "ops_per.c"], libs=[lib])
-    lines = gen_lines(ctx)
+    expect = {}
+    lines = gen_lines(ctx, expect)
     dis, couts, mouts = ctx.correspond("per-l1", drv, lines)
     ctx.cov["distribution"]["per_l1_ops"] = len(lines)
     kinds = {}
@@ -380,15 +432,15 @@ def run(ctx):
     if dis:
         ctx.log(f"per-l1 correspondence: {len(dis)} disagreements, first: {[str(x)[:200] for x in dis[0][1:]]}")
 
-    fails, n_cases = p_leg(ctx, drv, lines, couts)
+    fails, n_cases = p_leg(ctx, drv, lines, couts, expect)
     ctx.cov["predicate"]["per-l1"] = {"cases": n_cases, "failures": len(fails)}
     unexplained = []
     for l, c, why, region in fails:
         f = None
         if region == "F29":
-            f = ctx.match_finding(lambda f: f["id"] == "F29")
+            f = ctx.match_finding(lambda f: f["id"] == "F29" or f.get("l1per") == "nsnnwn>=64")
         elif region == "nslength":
-            f = ctx.match_finding(lambda f: f["id"] == "F64")
+            f = ctx.match_finding(lambda f: f["id"] == "F64" or f.get("l1per") == "nslength>64")
         if not f: unexplained.append((l, c, why))
     for l, c, why in unexplained[:5]:
         ctx.violation(f"{ctx.prop} (L1 PER/OER primitives) predicate fails on C: {l} -> {c}: {why}",
